@@ -163,10 +163,34 @@ def random_history(rng, n):
     return ops
 
 
+def protocol_cases():
+    """targeted histories for the source tie (Gen/GenIntern.v): k handles of one content made by every route
+    (intern_bytes, intern_str, clone), j of them dropped (j = k: the count passes the unpool threshold and the
+    pool entry must go exactly then), the same content interned AGAIN (must be the surviving entry, or a new
+    one after a full drain), cloned, then everything dropped in both orders.  First in the case list, so a
+    broken C18_model_is_translated_source_* obligation comes with a concrete intern / clone / drop history
+    whenever the change is observable through `jrharness intern` (pool size hook, counts, handle equality)."""
+    cases = []
+    for c in (b"a", "\u00e9".encode(), b"\xff"):
+        routes = ["ib", "cl"] + (["is"] if is_utf8(c) else [])
+        for k in (1, 2, 3, 4):
+            for r in routes:
+                ops = [("ib", c)]
+                for n in range(1, k):
+                    ops.append(("cl", 0) if r == "cl" else (r, c))
+                for j in range(k + 1):
+                    base = ops + [("dr", x) for x in range(j)] + [("ib", c), ("cl", k)]
+                    rest = list(range(j, k + 2))
+                    cases.append(base + [("dr", x) for x in rest])
+                    cases.append(base + [("dr", x) for x in reversed(rest)])
+                    cases.append(base + [("ib", b"b")] + [("dr", x) for x in rest] + [("ib", c), ("dr", k + 3), ("dr", k + 2)])
+    return cases
+
+
 def intern_cases(run):
     thorough = run.tier == "thorough"
     rng = run.rng.fork("intern")
-    cases = []
+    cases = protocol_cases()
     two = ["é".encode(), b"\xff"]
     if thorough:
         cases += exhaustive(5, two)
@@ -515,6 +539,14 @@ def check(run, terrs):
     if not binary:
         run.obligation("harness.build", False, err)
         return core.conclude(run, False, err, [], [])
+    stale = [m for n, m in terrs if n == "GenIntern"]
+    if stale:
+        # translator.GenIntern already failed as an obligation; Gen/GenIntern.v is left over from an earlier run
+        run.log("source tie: translator/gens/internsm.py rejected the interner source: " + stale[0][:300])
+    elif not proofs_ok and "Source" in (detail or ""):
+        run.log("source tie: the translated interner protocol (Gen/GenIntern.v) no longer equals the model: "
+                + (detail or "")[:300])
+    # protocol_cases() come first: the concrete history for a broken C18_model_is_translated_source_* obligation
     failures, model_diffs = correspond_intern(run, binary, intern_cases(run))
     failures += correspond_gc(run, binary, gc_cases(run))
     run.trusted = TRUSTED
@@ -589,7 +621,8 @@ def replay(run, data):
     return 1
 
 
-RULE = ("interner: every history of applicable operations of length 4 over {é, 0xff} and of length 3 over "
+RULE = ("interner: source-tie family first (per content a / \u00e9 / 0xff: 1-4 handles by intern_bytes, intern_str or "
+        "clone, 0..all dropped, re-interned, cloned, drained in both orders, re-interned after the drain), then every history of applicable operations of length 4 over {é, 0xff} and of length 3 over "
         "{'', a, b, é, 0xff} (thorough: length 5 and, without hand-over, length 4 over the five) with at most one "
         "thread hand-over, a drain family, and random "
         "histories of length 6-75 over these plus hostile byte strings (truncated, surrogate, overlong, 4-byte, "
@@ -601,6 +634,9 @@ RULE = ("interner: every history of applicable operations of length 4 over {é, 
         "/ request; non-trivial = history of >= 2 operations, every program")
 TRUSTED = ["Coq 8.16.1 kernel incl. vm_compute (no native_compute)",
            "no axioms (all C18 theorems closed under the global context)",
+           "translator/gens/internsm.py (reads the statements of the interner's refcount / pool functions; fails closed "
+           "on anything else) and the fixed vocabulary C18/SourceVocab.v (header read/write, checked `-`, the "
+           "content-keyed map, the allocator) plus the op -> API-call dispatch of C18/ModelSource.v src_step",
            "translator/gens/trace.py: struct/enum inventory of crates/jrsonnet-evaluator (hand-written Rust item "
            "and type parser)",
            "correspondence: jrharness intern/gc, the cfg(jrsonnet_verif) hooks verif_pool_len / verif_strong_count, "
